@@ -235,7 +235,7 @@ def _bounded_by_size(known, e, size_atoms):
     if len([k for k in ln if k != "1"]) != 1:
         return False, ""
     atom = [k for k in ln if k != "1"][0]
-    for k in known:
+    for k in [x for x in known if isinstance(x, dict)]:
         if k.get(atom, 0) > 0 and _atoms_size_only(k, size_atoms, atom) and len(k) > 1:
             others = [x for x in k if x not in ("1", atom)]
             if others and all(k[x] < 0 for x in others):
@@ -254,7 +254,7 @@ def _part_in_region(known, off, size, size_atoms):
     if len(oa) != 1 or len(sa) != 1:
         return False, "offset/size are not plain values"
     oa, sa = oa[0], sa[0]
-    for k in known:
+    for k in [x for x in known if isinstance(x, dict)]:
         # off + size - D <= 0 where D is bounded by the file size: some file-size-derived atom
         # enters D positively (D = file_size - 8 - footer_size in today's tree)
         if k.get(oa, 0) == 1 and k.get(sa, 0) == 1:
